@@ -42,6 +42,8 @@ pub fn check_value(v: &RVal, acc: &mut Acc) {
     for (name, r) in [
         ("parse_jsonb", guard(|| jsonb::parse_jsonb(&expect).map(|x| (from_value_raw(&x), x.to_vec(), x == val)))),
         ("from_slice", guard(|| jsonb::from_slice(&expect).map(|x| (from_value_raw(&x), x.to_vec(), x == val)))),
+        // the lazy reader handed the same bytes: the tree it yields and the bytes it writes back
+        ("parse_lazy_value", guard(|| jsonb::parse_lazy_value(&expect).map(|l| { let t = l.to_value().into_owned(); (from_value_raw(&t), l.to_vec(), t == val) }))),
     ] {
         match r {
             Err(p) => acc.vio(&format!("decode:{}:{}", name, panic_class(&p)), || desc(name, &p.msg)),
